@@ -16,7 +16,7 @@ def check(rep, tier, seed):
     nfiles = 48 if tier == "quick" else 900
     nops = 36 if tier == "quick" else 120
     # streams whose beginning is trimmed by an odd count put every position on the odd grid: out of this check's scope (DESIGN.md)
-    files = vfx.make_files(rng, nfiles, tier, wd, small=True, allow_trim_begin=False)
+    files = vfx.make_files(rng, nfiles, tier, wd, small=True, allow_trim_begin="even")
     cases = []
     for k, fi in enumerate(files):
         r = SplitMix(seed * 7919 + k)
